@@ -57,6 +57,9 @@ def run(ctx):
         raise Broken("no unsegmented path")
     p = up[0]
     cons = D.constructions(fb, p)
+    if len(cons) == 0 and (any(True for _ in p.calls(D.SEG + "::addSegment")) or any(True for _ in p.calls(D.SEG + "::SegmentedPacket"))):
+        res.bad("C04-R1", "unsegmented:delivered", dec.loc, "on the path where the message is known to be unsegmented no packet is built from it: it is "
+                "handed to the reassembly code instead, and the frame's remaining messages are not returned")
     if len(cons) != 1:
         raise Broken("unsegmented path: expected one construction of a Packet from (type, ptr, size), found %d" % len(cons))
     con = cons[0]
@@ -82,7 +85,10 @@ def run(ctx):
                   "%s <- %s" % (row["setter"].split("::")[-1], row["source"].split("::")[-1]),
                   "%s is fed from %s, expected exactly %s" % (row["setter"], sorted(gs) if cs else "nothing", row["source"]))
     # reassembled path
-    cp = [q for q in m.body_paths() if D.classify(q) == "continuation-completes"][0]
+    cps0 = [q for q in m.body_paths() if D.classify(q) == "continuation-completes"]
+    if not cps0:
+        raise Broken("decode loop: no path on which a continuation segment completes a message")
+    cp = cps0[0]
     for st in ("ASAM::CMP::Packet::setDeviceId", "ASAM::CMP::Packet::setStreamId"):
         want = CH + "::get" + st.split("::set")[-1]
         cs = list(cp.calls(st))
